@@ -429,7 +429,7 @@ pub fn check(ctx: &mut Ctx) {
         }
     }
     // concurrency
-    let cases = ctx.tier.pick(150u32, 6_000u32);
+    let cases = ctx.tier.pick(100u32, 5_000u32);
     let out = run_child_exe(&bin, &["worker".into(), "c19-stress".into(), ctx.seed.to_string(), cases.to_string()], None, &[]);
     let mut got = false;
     for l in &out.lines {
